@@ -1653,6 +1653,9 @@ class Food(UnitConversions):
             bool: True if the current food's macronutrients are less than or equal to the other food's.
         """
 
+        # the units must be the same for the comparison to mean anything
+        assert self.units == other.units
+
         # Check if the current food object is a monthly list
         if self.is_list_monthly():
             # Validate the list
@@ -1679,9 +1682,6 @@ class Food(UnitConversions):
                 or less_than_fat
                 or less_than_protein
             )
-
-        # If the current food object is not a monthly list, assert that the units are the same
-        assert self.units == other.units
 
         # Check if fat is included in the conversions
         if self.conversions.include_fat:
